@@ -108,6 +108,8 @@ def run(check, mirror, tier):
     from checks import C11_output
     C11_output.jobs_for(check, mirror, rb, crate, U, jobs, tier, KNOWN_PRED)
     run_parallel(check, jobs)
+    # output coercion rests on conformance of context types and on `coerced` (decided by C16)
+    run_companion(check, mirror, tier, "C16", ["coercion/", "context_variance"])
 
 
 def replay_input(i, rb):
